@@ -126,4 +126,40 @@ PROPS = {
                    "assumed: handler contract.",
         explanation="loop variant + step clauses + frames() lemmas.",
     ),
+    "C07": dict(
+        specs=["packer", "avp", "avp_types", "avp_grouped", "base", "node_model", "peer", "helpers", "c20", "node"],
+        ground=[], replay=replay.generic,
+        trusted_base=["queue model (ghost log g_put = every message ever queued on the connection)"],
+        assumptions=COMMON_ASSUME + [
+            "handlers are serialized (S5): interleavings between application threads and the read thread are not decided",
+            "user request/answer handlers may raise anything but transmit nothing synchronously (behavioural contract of "
+            "Application.receive_request / receive_answer); application answers are covered by C09",
+            "assumed contracts: Node.receive_cer / receive_cea (exactly one mirroring CEA, respectively nothing sent), "
+            "PeerStats.* bookkeeping, validate_message_avps frame"],
+        level_text="Deductive proof, for every table state and every message, of the per-call contract of the connection "
+                   "message handler Node._receive_message against the ghost log of queued messages: at most one message is "
+                   "queued per call, only when the received message is a request, and it mirrors the request's command code, "
+                   "application id, hop-by-hop and end-to-end identifiers with R cleared; nothing is queued on any other "
+                   "connection (frame); the DWR/DPR handlers queue exactly one 2001 answer; send_message queues exactly once.",
+        level_note="Sequential contracts (handlers serialized). Assumed: CE handler contracts, user-handler contract.",
+        explanation="ghost answer-log contracts on _receive_message, send_message and the base-protocol handlers.",
+    ),
+    "C17": dict(
+        specs=["packer", "avp", "avp_types", "avp_grouped", "base", "node_model", "peer", "helpers", "c20", "node"],
+        ground=[], replay=replay.generic,
+        trusted_base=["collections.deque(maxlen=N).append model (drops the oldest element when full)"],
+        assumptions=COMMON_ASSUME + [
+            "pending hop-by-hop:end-to-end keys are distinct across connections (otherwise the origin table entry is overwritten)",
+            "distinct origins own distinct deques (table invariant, instantiated for the keys involved)",
+            "the clause 'requests without the flag or with unseen identifiers are never rejected AS DUPLICATES' is only decided "
+            "structurally: the 5012-duplicate branch is taken exactly under dup_cond (path condition of the proved clause); a "
+            "5012 caused by a failing handler is a different case (C08)"],
+        level_text="Deductive proof that _record_answer/send_message maintain, for an arbitrary origin o, window[o]' = "
+                   "push_maxlen(window[o], e2e) exactly when an answer to a request of o is sent (and leave every other window "
+                   "untouched), i.e. window[o] = last-N of the answered history; and that _receive_message answers a request "
+                   "with T set, known origin and e2e in window[origin] itself (5012, or 5005 if it also lacks required AVPs) "
+                   "without delivering it to any application.",
+        level_note="Any number of requests, any N (no bound). T-fmt: f-string keys are injective constructors.",
+        explanation="window lemma through contracts with a universally quantified ghost origin.",
+    ),
 }
